@@ -255,7 +255,7 @@ func prepare(o prepOpts) (*Scratch, error) {
 		go func() {
 			defer wg.Done()
 			tb := time.Now()
-			out, err := run(s.RepoDir, env, "go", "test", "-tags", "verif", "-vet=off", "-count=1", "./...")
+			out, err := run(s.RepoDir, env, "go", "test", "-tags", "verif", "-vet=off", "-count=1", "-parallel", "1", "./...")
 			if err != nil {
 				errs[len(jobs)] = fmt.Errorf("instrumentation fidelity: the repository's own tests fail on the instrumented copy (simulator inactive): %v\n%s", err, tail(out, 4000))
 			}
